@@ -133,22 +133,22 @@ func (c *Ctx) loopWrites(fr *Frame, li *loopInfo) (cells map[interface{}]bool, f
 				}
 			case *ssa.Send:
 				if c.chanMode(fr, x.Chan) != "" {
-					whole[chLen] = true
-					whole[chVal] = true
+					fields[chLen] = append(fields[chLen], baseRef{V: x.Chan})
+					fields[chVal] = append(fields[chVal], baseRef{V: x.Chan})
 				}
 			case *ssa.UnOp:
 				if x.Op == token.ARROW {
 					if c.chanMode(fr, x.X) != "" {
-						whole[chLen] = true
-						whole[chVal] = true
+						fields[chLen] = append(fields[chLen], baseRef{V: x.X})
+						fields[chVal] = append(fields[chVal], baseRef{V: x.X})
 					}
 					whole[ctxDoneKey] = true
 				}
 			case *ssa.Select:
 				for _, sst := range x.States {
 					if c.chanMode(fr, sst.Chan) != "" {
-						whole[chLen] = true
-						whole[chVal] = true
+						fields[chLen] = append(fields[chLen], baseRef{V: sst.Chan})
+						fields[chVal] = append(fields[chVal], baseRef{V: sst.Chan})
 					}
 				}
 				whole[ctxDoneKey] = true
@@ -221,6 +221,10 @@ func stableBase(li *loopInfo, cells map[interface{}]bool, v ssa.Value) bool {
 				return !cells[a]
 			case *ssa.FreeVar:
 				return !cells[a]
+			case *ssa.FieldAddr:
+				// a field of a stable object, provided the loop does not write that field (checked by the caller
+				// through stableFieldKeys)
+				return stableBase(li, cells, a.X)
 			}
 		}
 	}
@@ -347,6 +351,11 @@ func (c *Ctx) enterLoopHead(st *State, fr *Frame, li *loopInfo, pred *ssa.BasicB
 				if !stableBase(li, cells, b.V) {
 					precise = false
 				}
+				for _, fk := range c.fieldLoadKeys(b.V) {
+					if _, written := fields[fk]; written || whole[fk] {
+						precise = false
+					}
+				}
 				for _, pf := range b.Path {
 					if _, written := fields[pf.Key]; written || whole[pf.Key] {
 						precise = false
@@ -411,6 +420,19 @@ func (c *Ctx) enterLoopHead(st *State, fr *Frame, li *loopInfo, pred *ssa.BasicB
 	for _, cl := range invs {
 		env := c.envFor(st, fr, fr.entry)
 		st.assume(env.evalBool(cl.E))
+	}
+	if fr.fc != nil {
+		for _, cl := range fr.fc.Clauses {
+			if cl.Kind != "loopset" || cl.Loop != li.ord {
+				continue
+			}
+			g, ok := c.V.specs.Ghosts[cl.Site]
+			if !ok {
+				evalFail("loop set: unknown ghost variable %s", cl.Site)
+			}
+			env := c.envFor(st, fr, fr.entry)
+			st.heap["G_"+g.Name] = env.eval(cl.E)
+		}
 	}
 	if len(decs) > 0 {
 		var vs []Term
@@ -678,6 +700,9 @@ func (c *Ctx) stableBaseTerm(st *State, fr *Frame, v ssa.Value) Term {
 			return c.valAsTerm(c.loadCell(st, &Addr{Kind: aCell, Key: a, Elem: deref(a.Type())}))
 		case *ssa.FreeVar:
 			return c.valAsTerm(c.loadCell(st, &Addr{Kind: aCell, Key: a, Elem: deref(a.Type())}))
+		case *ssa.FieldAddr:
+			base := c.stableBaseTerm(st, fr, a.X)
+			return c.loadField(st, base, c.fieldByIndex(a.X.Type(), a.Field))
 		}
 	}
 	return c.term(st, fr, v)
@@ -719,4 +744,21 @@ func sortedCellKeys(m map[interface{}]bool) []interface{} {
 		out = append(out, e.k)
 	}
 	return out
+}
+
+// fieldLoadKeys: heap maps read by a chain of field loads x.f.g (as SSA values)
+func (c *Ctx) fieldLoadKeys(v ssa.Value) []string {
+	var out []string
+	for {
+		u, ok := v.(*ssa.UnOp)
+		if !ok || u.Op != token.MUL {
+			return out
+		}
+		fa, ok := u.X.(*ssa.FieldAddr)
+		if !ok {
+			return out
+		}
+		out = append(out, c.fieldByIndex(fa.X.Type(), fa.Field).Key)
+		v = fa.X
+	}
 }
